@@ -39,7 +39,10 @@ def assist(project, source, position, filename=None, debug=False):
             return prefix, list_packages(project, head, filename)
         else:
             plist = list_packages(project, head, filename)
-            module = project.get_nmodule(head, filename)
+            try:
+                module = project.get_nmodule(head, filename)
+            except ImportError:
+                return prefix, plist
             return prefix, sorted(set(plist) | set(module.attr_list(ctx)))
 
     scope = extract_scope(source, project)
@@ -96,9 +99,12 @@ def location(project, source, position, filename=None, debug=False):
 
     locs = []
     for r in result:
+        # runtime objects (builtins, compiled modules) have no source location
         if isinstance(r, list):
-            locs.append([_loc(n.declared_at, n.filename) for n in r])
-        else:
+            alts = [_loc(n.declared_at, n.filename) for n in r if hasattr(n, 'declared_at')]
+            if alts:
+                locs.append(alts)
+        elif hasattr(r, 'declared_at'):
             locs.append(_loc(r.declared_at, r.filename))
 
     return locs
